@@ -106,7 +106,8 @@ def run(ctx):
         ctx.validate(SPEC, 'AsyncReqTrace.tla', 'AsyncReqTrace.cfg', tr, WHAT, executions=execs,
                      label='cover replay + random (3 builds)', timeout=1800)
     # E5: free-running rounds, real threads, no controller: the windows BETWEEN two hook points --------------
-    rounds = 120000 if thorough else 8000
+    # (a round = up to 6 threads x 2..160 calls on one fresh object; TLC's JSON parsing dominates the cost)
+    rounds = 24000 if thorough else 1200
     parts, execs = [], 0
     for name, exe, payload in builds:
         tr = os.path.join(ctx.work, 'stress_%s.ndjson' % name)
